@@ -4,6 +4,7 @@ import (
 	"fmt"
 	"go/token"
 	"go/types"
+	"os"
 	"strings"
 
 	"golang.org/x/tools/go/ssa"
@@ -158,49 +159,99 @@ func funcsWith(c *Ctx, module string, pred func(ir.Effect) bool) []*ssa.Function
 
 func topUpPairing(c *Ctx) {
 	w, r := c.W, c.R
-	fs := funcsWith(c, "stream", func(e ir.Effect) bool { return e.Method == "SendCoinsFromAccountToModule" })
+	// asked on the flat view of the top-up step (found by what it does): the transfer, the settlement and the store may
+	// each stand in it or in a helper
+	fs := topUpSteps(c)
 	r.Floor("functions debiting a stream sender", len(fs), 1)
+	claimFn := map[*ssa.Function]bool{}
+	for _, g := range claimSteps(c) {
+		claimFn[g] = true
+	}
+	inClaim := func(ctx *ir.FCtx) bool {
+		for x := ctx; x != nil; x = x.Up {
+			if claimFn[x.Fn] {
+				return true
+			}
+		}
+		return false
+	}
+	canon := func(e *ir.Expr) *ir.Expr {
+		if e == nil {
+			return nil
+		}
+		return w.ExpandKeep(e, 6, ir.TypesVocabulary)
+	}
+	isSendI := directSites(c, func(e ir.Effect) bool {
+		return e.Method == "SendCoinsFromAccountToModule" && ir.ModuleOf(e.Fn) == "stream"
+	})
+	isSetI := directSites(c, func(e ir.Effect) bool { return e.Kind == "StoreWrite" && e.Section == secStreams })
+	effOf := map[ssa.Instruction]ir.Effect{}
+	for _, e := range w.AllEffects(func(e ir.Effect) bool { return e.Kind == "StoreWrite" && e.Section == secStreams }) {
+		effOf[e.Site] = e
+	}
 	for _, f := range fs {
 		key := fn(f)
-		var send ir.Effect
-		for _, e := range w.EffectsOf(f) {
-			if e.Method == "SendCoinsFromAccountToModule" {
-				send = e
+		root := w.FlatRoot(f)
+		success := map[ssa.Instruction]bool{}
+		for _, rt := range w.SuccessReturns(f) {
+			success[rt] = true
+		}
+		okReturn := func(p ir.FPos) bool { return p.Ctx == root && success[p.In] && !p.ReturnsFailure() }
+		isSend := func(_ *ir.FCtx, in ssa.Instruction) bool { return isSendI(in) }
+		// the settlement claim also stores the stream; the deposit store is the one made outside the claim step
+		isDepositSet := func(cx *ir.FCtx, in ssa.Instruction) bool { return isSetI(in) && !inClaim(cx) }
+		var sends, sets []ir.FPos
+		seen := map[[2]any]bool{}
+		w.FlatWalk(root, nil, nil, func(p ir.FPos) bool {
+			k := [2]any{p.Ctx, p.In}
+			if seen[k] {
+				return true
 			}
-		}
-		isSend := func(in ssa.Instruction) bool { return in == send.Site }
-		isSet := callReaching(c, f, func(e ir.Effect) bool { return e.Kind == "StoreWrite" && e.Section == secStreams })
-		// the settlement claim also stores the stream; the deposit store is the one after the send
-		var sets []ssa.Instruction
-		for _, s := range findInstrs(f, isSet) {
-			if !callReaching(c, f, func(e ir.Effect) bool { return e.Kind == "Bank" })(s) {
-				sets = append(sets, s)
+			if isSend(p.Ctx, p.In) {
+				seen[k] = true
+				sends = append(sends, p)
 			}
+			if isDepositSet(p.Ctx, p.In) {
+				seen[k] = true
+				sets = append(sets, p)
+			}
+			return true
+		})
+		if len(sends) != 1 {
+			r.Bad("A3.topup-pairing", key+"|send-site", w.Pos(f.Pos()), "the top-up step debits the sender with one transfer", fmt.Sprintf("%d transfer occurrence(s)", len(sends)))
+			continue
 		}
-		isDepositSet := func(in ssa.Instruction) bool { return containsInstr(sets, in) }
-		bad := w.MustPass(f, isSend, nil)
-		r.Require(len(bad) == 0, "A3.topup-pairing", key+"|must-send", pos(c, send.Site), "a successful top-up always transfers the deposit from the sender to the module account", fmt.Sprintf("%d success return(s) without the transfer", len(bad)))
-		bad = w.MustPass(f, isDepositSet, nil)
-		r.Require(len(bad) == 0 && len(sets) > 0, "A3.topup-pairing", key+"|must-store", pos(c, send.Site), "a successful top-up always stores the increased deposit", fmt.Sprintf("%d success return(s) without the store", len(bad)))
-		for _, s := range sets {
-			r.Require(ir.Precedes(f, isSend, s, nil), "A3.topup-pairing", key+"|send<store", pos(c, s), "the deposit is credited only after the transfer succeeded", "the stream can be stored without the transfer")
+		send := sends[0]
+		bad := w.FlatReaches(root, nil, &ir.FlatCut{Barrier: isSend}, okReturn)
+		r.Require(bad == nil, "A3.topup-pairing", key+"|must-send", pos(c, send.In), "a successful top-up always transfers the deposit from the sender to the module account", "a success return is reachable without the transfer")
+		bad = w.FlatReaches(root, nil, &ir.FlatCut{Barrier: isDepositSet}, okReturn)
+		r.Require(bad == nil && len(sets) > 0, "A3.topup-pairing", key+"|must-store", pos(c, send.In), "a successful top-up always stores the increased deposit", "a success return is reachable without the store")
+		bad = w.FlatReaches(root, nil, &ir.FlatCut{Barrier: isSend}, func(p ir.FPos) bool { return isDepositSet(p.Ctx, p.In) })
+		r.Require(bad == nil, "A3.topup-pairing", key+"|send<store", pos(c, send.In), "the deposit is credited only after the transfer succeeded", "the stream can be stored without the transfer")
+		apply := func(p ir.FPos, e *ir.Expr) *ir.Expr {
+			if e == nil {
+				return nil
+			}
+			if p.Ctx != root {
+				e = p.Ctx.Apply(e)
+			}
+			return canon(e)
 		}
-		coins := w.ExprOf(send.Call.Common().Args[3])
+		coins := apply(send, w.ExprOf(send.In.(ssa.CallInstruction).Common().Args[3]))
 		var d *ir.Expr
 		if calleeIs(coins, "types.NewCoins") && len(coins.Args) == 1 && coins.Args[0].Op == "list" && len(coins.Args[0].Args) == 1 {
 			d = coins.Args[0].Args[0]
 		}
-		r.Require(d != nil && d.Op == "param", "A3.topup-pairing", key+"|amount-sent", pos(c, send.Site), "the coins transferred are exactly the top-up amount", coins.String())
-		for _, e := range w.EffectsOf(f) {
-			_ = e
-		}
+		r.Require(d != nil && isParamPath(d), "A3.topup-pairing", key+"|amount-sent", pos(c, send.In), "the coins transferred are exactly the top-up amount", fmt.Sprint(coins))
 		for _, s := range sets {
-			call := s.(ssa.CallInstruction)
-			args := call.Common().Args
-			st := w.ExprOf(args[len(args)-1])
-			dep := fieldOfStruct(st, "Deposit")
-			ok := dep != nil && calleeIs(dep, "types.Coin).Add") && len(dep.Args) == 2 && d != nil && dep.Args[1].String() == d.String() && streamFieldX(c, dep.Args[0], "Deposit")
-			r.Require(ok, "A3.topup-pairing", key+"|deposit+=d", pos(c, s), "the stored Deposit is (stored deposit).Add(the amount transferred)", fmt.Sprint(dep))
+			eff, ok := effOf[s.In]
+			if !ok {
+				continue
+			}
+			st := apply(s, marshalArg(c, eff))
+			dep := canon(fieldOfStruct(st, "Deposit"))
+			okd := dep != nil && calleeIs(dep, "types.Coin).Add") && len(dep.Args) == 2 && d != nil && dep.Args[1].String() == d.String() && streamFieldX(c, dep.Args[0], "Deposit")
+			r.Require(okd, "A3.topup-pairing", key+"|deposit+=d", pos(c, s.In), "the stored Deposit is (stored deposit).Add(the amount transferred)", fmt.Sprint(dep))
 		}
 	}
 }
@@ -210,30 +261,27 @@ func claimPairing(c *Ctx) {
 	// the claim step: the function that computes the claim amount (the two payouts and the store of the reduced
 	// deposit may stand in it or in helpers it calls: everything below is asked on its flat view, with the
 	// expressions of helper-level sites lifted to its terms)
-	var fs []*ssa.Function
-	for _, f := range moduleFuncs(c, "stream") {
-		if f.Parent() != nil || !c.Rooted(f) {
-			continue
-		}
-		for _, b := range f.Blocks {
-			for _, in := range b.Instrs {
-				if call, ok := in.(*ssa.Call); ok && calleeIs(w.ExprOf(call), "types.CalculateAmountToClaim") {
-					fs = append(fs, f)
-				}
-			}
-		}
-	}
+	fs := claimSteps(c)
 	r.Floor("functions computing a claim", len(fs), 1)
+	// expressions are compared in canonical form: helpers and getters expanded down to state reads, the exported
+	// calculators of the types package (the vocabulary of this rule) left in place
+	canon := func(e *ir.Expr) *ir.Expr {
+		if e == nil {
+			return nil
+		}
+		return w.ExpandKeep(e, 6, ir.TypesVocabulary)
+	}
 	for _, f := range fs {
 		key := fn(f)
 		one := func(coins *ir.Expr) *ir.Expr {
+			coins = canon(coins)
 			if calleeIs(coins, "types.NewCoins") && len(coins.Args) == 1 && coins.Args[0].Op == "list" && len(coins.Args[0].Args) == 1 {
 				return coins.Args[0].Args[0]
 			}
 			return coins
 		}
 		pay := func(method string) []Inst {
-			return instantiate(c, f, func(e ir.Effect) bool { return e.Method == method }, func(e ir.Effect) *ir.Expr { return w.ExprOf(e.Call.Common().Args[3]) })
+			return instantiate(c, f, func(e ir.Effect) bool { return e.Method == method && ir.ModuleOf(e.Fn) == "stream" }, func(e ir.Effect) *ir.Expr { return w.ExprOf(e.Call.Common().Args[3]) })
 		}
 		feePays, recvPays := pay("SendCoinsFromModuleToModule"), pay("SendCoinsFromModuleToAccount")
 		if len(feePays) != 1 || len(recvPays) != 1 {
@@ -270,7 +318,7 @@ func claimPairing(c *Ctx) {
 		sets := instantiate(c, f, isStreamWrite, func(e ir.Effect) *ir.Expr { return marshalArg(c, e) })
 		for _, s := range sets {
 			st := s.E
-			dep := fieldOfStruct(st, "Deposit")
+			dep := canon(fieldOfStruct(st, "Deposit"))
 			ok := dep != nil && okTotal && dep.Op == "res" && dep.Name == "1" && dep.Args[0].String() == total.Args[0].String()
 			r.Require(ok, "A3.claim-pairing", key+"|deposit:=remaining", pos(c, s.Eff.Site), "the stored Deposit is the remaining-deposit result of the same claim computation", fmt.Sprint(dep))
 			if okTotal {
@@ -278,7 +326,7 @@ func claimPairing(c *Ctx) {
 				okIn := len(ca) == 5 && isBlockTime(ca[0]) && streamFieldX(c, ca[1], "DepositZeroTime") && streamFieldX(c, ca[2], "LastOutflowTime") && streamFieldX(c, ca[3], "Deposit") && streamFieldX(c, ca[4], "FlowRate")
 				r.Require(okIn, "A3.claim-pairing", key+"|inputs", pos(c, s.Eff.Site), "the claim is computed from block time and the stored DepositZeroTime, LastOutflowTime, Deposit and FlowRate (in that order)", total.Args[0].String())
 			}
-			lo := fieldOfStruct(st, "LastOutflowTime")
+			lo := canon(fieldOfStruct(st, "LastOutflowTime"))
 			r.Require(lo != nil && isBlockTime(lo), "A3.claim-pairing", key+"|last-outflow", pos(c, s.Eff.Site), "a claim sets LastOutflowTime to the block time", fmt.Sprint(lo))
 		}
 		isSet := directSites(c, isStreamWrite)
@@ -289,9 +337,14 @@ func claimPairing(c *Ctx) {
 		for _, p := range []Inst{feePay, recvPay} {
 			amt := one(p.E)
 			zero := func(pr ir.Pred) bool {
-				return !pr.Pol && calleeIs(pr.E, "math.Int).GT") && len(pr.E.Args) == 2 && pr.E.Args[0].Op == "field" && pr.E.Args[0].Name == "Amount" && pr.E.Args[0].Args[0].String() == amt.String() && isZeroInt(pr.E.Args[1]) ||
-					!pr.Pol && calleeIs(pr.E, "math.Int).IsPositive") && len(pr.E.Args) == 1 && pr.E.Args[0].Op == "field" && pr.E.Args[0].Name == "Amount" && pr.E.Args[0].Args[0].String() == amt.String() ||
-					!pr.Pol && calleeIs(pr.E, "types.Coin).IsPositive") && len(pr.E.Args) == 1 && pr.E.Args[0].String() == amt.String()
+				if pr.Pol || pr.E.Op != "call" {
+					return false
+				}
+				same := func(x *ir.Expr) bool { return sameCoin(canon(x), amt) }
+				amtOf := func(x *ir.Expr) bool { return amountOfCoin(canon(x), amt) }
+				return calleeIs(pr.E, "math.Int).GT") && len(pr.E.Args) == 2 && amtOf(pr.E.Args[0]) && isZeroInt(pr.E.Args[1]) ||
+					calleeIs(pr.E, "math.Int).IsPositive") && len(pr.E.Args) == 1 && amtOf(pr.E.Args[0]) ||
+					calleeIs(pr.E, "types.Coin).IsPositive") && len(pr.E.Args) == 1 && same(pr.E.Args[0])
 			}
 			site := p.Eff.Site
 			isPay := func(in ssa.Instruction) bool { return in == site }
@@ -302,81 +355,212 @@ func claimPairing(c *Ctx) {
 	}
 }
 
+// claimSteps finds the claim step by what it does, not by where the arithmetic is written: the smallest
+// functions of the stream module that (themselves or through helpers) compute a claim amount and make both
+// payouts — "smallest" = calling no other function with that property (top-up, rate change and cancel all
+// contain the claim step).
+func claimSteps(c *Ctx) []*ssa.Function {
+	if c.claimStepsDone {
+		return c.claimStepFns
+	}
+	w := c.W
+	var cands []*ssa.Function
+	does := map[*ssa.Function]bool{}
+	for _, f := range moduleFuncs(c, "stream") {
+		if f.Parent() != nil || !c.Rooted(f) {
+			continue
+		}
+		calc, fee, rcv := false, false, false
+		for g := range w.Reachable([]*ssa.Function{f}) {
+			for _, e := range w.EffectsOf(g) {
+				if ir.ModuleOf(g) != "stream" {
+					continue
+				}
+				switch e.Method {
+				case "SendCoinsFromModuleToModule":
+					fee = true
+				case "SendCoinsFromModuleToAccount":
+					rcv = true
+				}
+			}
+			for _, b := range g.Blocks {
+				for _, in := range b.Instrs {
+					if call, ok := in.(*ssa.Call); ok {
+						if sc := call.Call.StaticCallee(); sc != nil && sc.Name() == "CalculateAmountToClaim" && ir.ModuleOf(sc) == "stream" {
+							calc = true
+						}
+					}
+				}
+			}
+		}
+		if calc && fee && rcv {
+			cands = append(cands, f)
+			does[f] = true
+		}
+	}
+	var fs []*ssa.Function
+	for _, f := range cands {
+		minimal := true
+		for g := range w.Reachable([]*ssa.Function{f}) {
+			if g != f && does[g] {
+				minimal = false
+			}
+		}
+		if minimal {
+			fs = append(fs, f)
+		}
+	}
+	c.claimStepsDone, c.claimStepFns = true, fs
+	return fs
+}
 
 func cancelPairing(c *Ctx) {
 	w, r := c.W, c.R
-	fs := funcsWith(c, "stream", func(e ir.Effect) bool { return false })
-	_ = fs
-	var cf []*ssa.Function
-	for _, f := range w.Funcs {
-		if ir.ModuleOf(f) != "stream" || !c.Rooted(f) || w.IsGenerated(f) || w.IsRoot(f) {
+	// the cancel step, found by what it does: the smallest non-handler functions of the module that reach the deletion
+	// of a stream record. Everything is asked on its flat view: the refund, the zero test, the settlement and the
+	// deletion may each stand in it or in a helper (possibly one shared with the claim step).
+	isDelEff := func(e ir.Effect) bool { return e.Kind == "StoreDelete" && e.Section == secStreams }
+	deletes := map[*ssa.Function]bool{}
+	var cands []*ssa.Function
+	for _, f := range moduleFuncs(c, "stream") {
+		if f.Parent() != nil || !c.Rooted(f) || w.IsRoot(f) {
 			continue
 		}
-		del := findInstrs(f, callReaching(c, f, func(e ir.Effect) bool { return e.Kind == "StoreDelete" && e.Section == secStreams }))
-		direct := false
-		for _, e := range w.EffectsOf(f) {
-			if e.Method == "SendCoinsFromModuleToAccount" {
-				direct = true
+		if reachesEffect(c, f, isDelEff) && reachesEffect(c, f, func(e ir.Effect) bool { return e.Method == "SendCoinsFromModuleToAccount" }) {
+			cands = append(cands, f)
+			deletes[f] = true
+		}
+	}
+	var cf []*ssa.Function
+	for _, f := range cands {
+		minimal := true
+		for g := range w.Reachable([]*ssa.Function{f}) {
+			if g != f && deletes[g] {
+				minimal = false
 			}
 		}
-		if len(del) > 0 && direct {
+		if minimal {
 			cf = append(cf, f)
 		}
 	}
 	r.Floor("functions refunding and deleting a stream", len(cf), 1)
-	for _, f := range cf {
-		key := fn(f)
-		var refund ir.Effect
-		for _, e := range w.EffectsOf(f) {
-			if e.Method == "SendCoinsFromModuleToAccount" {
-				refund = e
+	claimFn := map[*ssa.Function]bool{}
+	for _, g := range claimSteps(c) {
+		claimFn[g] = true
+	}
+	inClaim := func(ctx *ir.FCtx) bool {
+		for x := ctx; x != nil; x = x.Up {
+			if claimFn[x.Fn] {
+				return true
 			}
 		}
-		isRefund := func(in ssa.Instruction) bool { return in == refund.Site }
-		isDel := callReaching(c, f, func(e ir.Effect) bool { return e.Kind == "StoreDelete" && e.Section == secStreams })
-		isClaim := callReaching(c, f, func(e ir.Effect) bool { return e.Method == "SendCoinsFromModuleToModule" })
-		coins := w.ExprOf(refund.Call.Common().Args[3])
+		return false
+	}
+	canon := func(e *ir.Expr) *ir.Expr {
+		if e == nil {
+			return nil
+		}
+		return w.ExpandKeep(e, 6, ir.TypesVocabulary)
+	}
+	isPayout := directSites(c, func(e ir.Effect) bool {
+		return e.Method == "SendCoinsFromModuleToAccount" && ir.ModuleOf(e.Fn) == "stream"
+	})
+	isDel := directSites(c, isDelEff)
+	isRead := directSites(c, func(e ir.Effect) bool { return e.Kind == "StoreRead" && e.Section == secStreams })
+	for _, f := range cf {
+		key := fn(f)
+		root := w.FlatRoot(f)
+		// the refund: the module-to-account transfer made outside the claim step
+		var refunds []ir.FPos
+		seenOcc := map[[2]any]bool{}
+		for _, p := range w.FlatOccurrences(root, isPayout) {
+			if k := [2]any{p.Ctx, p.In}; !inClaim(p.Ctx) && !seenOcc[k] {
+				seenOcc[k] = true
+				refunds = append(refunds, p)
+			}
+		}
+		if len(refunds) != 1 {
+			r.Bad("A3.cancel-pairing", key+"|refund-site", w.Pos(f.Pos()), "the cancel step refunds the sender with one transfer outside the settlement", fmt.Sprintf("%d such transfer(s)", len(refunds)))
+			continue
+		}
+		refund := refunds[0]
+		isRefund := func(ctx *ir.FCtx, in ssa.Instruction) bool { return in == refund.In && !inClaim(ctx) }
+		rcall := refund.In.(ssa.CallInstruction)
+		coins := canon(refund.Ctx.Apply(w.ExprOf(rcall.Common().Args[3])))
+		if refund.Ctx == root {
+			coins = canon(w.ExprOf(rcall.Common().Args[3]))
+		}
 		var d *ir.Expr
 		if calleeIs(coins, "types.NewCoins") && len(coins.Args) == 1 && coins.Args[0].Op == "list" && len(coins.Args[0].Args) == 1 {
 			d = coins.Args[0].Args[0]
 		}
-		r.Require(d != nil && streamFieldX(c, d, "Deposit"), "A3.cancel-pairing", key+"|refund-amount", pos(c, refund.Site), "the refund is the stream's stored remaining deposit", fmt.Sprint(d))
-		skip := w.EstablishedEdges(f, func(pr ir.Pred) bool {
-			return !pr.Pol && calleeIs(pr.E, "math.Int).GT") && len(pr.E.Args) == 2 && d != nil && pr.E.Args[0].Op == "field" && pr.E.Args[0].Name == "Amount" && pr.E.Args[0].Args[0].String() == d.String() && isZeroInt(pr.E.Args[1])
-		}, 0)
-		bad := w.MustPass(f, isRefund, skip)
-		r.Require(len(bad) == 0, "A3.cancel-pairing", key+"|must-refund", pos(c, refund.Site), "every successful cancel refunds the remaining deposit unless it is zero", fmt.Sprintf("%d success return(s) skip the refund", len(bad)))
-		bad = w.MustPass(f, isDel, nil)
-		r.Require(len(bad) == 0, "A3.cancel-pairing", key+"|must-delete", pos(c, refund.Site), "every successful cancel deletes the stream", fmt.Sprintf("%d success return(s) keep the stream", len(bad)))
-		for _, dl := range findInstrs(f, isDel) {
-			r.Require(ir.Precedes(f, isRefund, dl, skip), "A3.cancel-pairing", key+"|refund<delete", pos(c, dl), "the stream is deleted only after the refund succeeded (or was zero)", "delete reachable without the refund")
+		r.Require(d != nil && streamFieldX(c, d, "Deposit"), "A3.cancel-pairing", key+"|refund-amount", pos(c, refund.In), "the refund is the stream's stored remaining deposit", fmt.Sprint(d))
+		skip := func(pr ir.Pred) bool {
+			if os.Getenv("MCDEBUG") == "cancel" {
+				fmt.Fprintln(os.Stderr, "cancel pred", pr.Pol, pr.E.String(), "| d =", d)
+			}
+			if pr.Pol || pr.E.Op != "call" || d == nil {
+				return false
+			}
+			amtOf := func(x *ir.Expr) bool { return amountOfCoin(canon(x), d) }
+			return calleeIs(pr.E, "math.Int).GT") && len(pr.E.Args) == 2 && amtOf(pr.E.Args[0]) && isZeroInt(pr.E.Args[1]) ||
+				calleeIs(pr.E, "math.Int).IsPositive") && len(pr.E.Args) == 1 && amtOf(pr.E.Args[0]) ||
+				calleeIs(pr.E, "types.Coin).IsPositive") && len(pr.E.Args) == 1 && sameCoin(canon(pr.E.Args[0]), d)
 		}
+		success := map[ssa.Instruction]bool{}
+		for _, rt := range w.SuccessReturns(f) {
+			success[rt] = true
+		}
+		okReturn := func(p ir.FPos) bool { return p.Ctx == root && success[p.In] && !p.ReturnsFailure() }
+		bad := w.FlatReaches(root, nil, &ir.FlatCut{Matcher: skip, Depth: 1, Barrier: isRefund}, okReturn)
+		r.Require(bad == nil, "A3.cancel-pairing", key+"|must-refund", pos(c, refund.In), "every successful cancel refunds the remaining deposit unless it is zero", "a success return skips the refund")
+		// (a delete helper that skips an absent key is still the delete step: the edge "no such record" is not a way around it)
+		absent := func(pr ir.Pred) bool {
+			return !pr.Pol && pr.E.Op == "call" && strings.HasSuffix(pr.E.Name, ".Has") && len(pr.E.Args) == 2 && w.SectionOfKey(pr.E.Args[1]) == secStreams
+		}
+		bad = w.FlatReaches(root, nil, &ir.FlatCut{Matcher: absent, Depth: 2, Barrier: func(_ *ir.FCtx, in ssa.Instruction) bool { return isDel(in) }}, okReturn)
+		r.Require(bad == nil, "A3.cancel-pairing", key+"|must-delete", pos(c, refund.In), "every successful cancel deletes the stream", "a success return keeps the stream")
+		bad = w.FlatReaches(root, nil, &ir.FlatCut{Matcher: skip, Depth: 1, Barrier: isRefund}, func(p ir.FPos) bool { return isDel(p.In) })
+		r.Require(bad == nil, "A3.cancel-pairing", key+"|refund<delete", pos(c, refund.In), "the stream is deleted only after the refund succeeded (or was zero)", "delete reachable without the refund")
 		// settle before refund whenever the deposit is positive; the refund uses the reloaded stream
-		noDeposit := w.EstablishedEdges(f, func(pr ir.Pred) bool {
+		noDeposit := func(pr ir.Pred) bool {
 			q := pr
 			q.Pol = !q.Pol
 			return depositPositive(c)(q)
-		}, 0)
-		r.Require(ir.Precedes(f, isClaim, refund.Site, noDeposit), "A3.cancel-pairing", key+"|claim<refund", pos(c, refund.Site), "outstanding flow is paid to the receiver before the sender is refunded (whenever the deposit is positive)", "the refund is reachable with a positive deposit and no settlement")
-		// the refunded deposit is read after the settlement: its load must not be the pre-claim value only
-		if d != nil {
-			pre := 0
-			post := 0
-			for _, a := range d.Alts() {
-				s := a.String()
-				_ = s
-				post++
-			}
-			_ = pre
-			r.Require(post >= 1 && reloadedAfter(c, f, isClaim, refund.Site), "A3.cancel-pairing", key+"|reload", pos(c, refund.Site), "the stream is re-read after the settlement so that the refund is the post-claim remainder", "the refund uses the deposit loaded before the settlement")
 		}
+		isRefundOcc := func(p ir.FPos) bool { return isRefund(p.Ctx, p.In) }
+		// (the settlement = entering the claim step; its own payouts are conditional on their amounts)
+		bad = w.FlatReaches(root, nil, &ir.FlatCut{Matcher: noDeposit, Depth: 1, Barrier: func(cx *ir.FCtx, _ ssa.Instruction) bool { return claimFn[cx.Fn] }}, isRefundOcc)
+		r.Require(bad == nil, "A3.cancel-pairing", key+"|claim<refund", pos(c, refund.In), "outstanding flow is paid to the receiver before the sender is refunded (whenever the deposit is positive)", "the refund is reachable with a positive deposit and no settlement")
+		// the refunded deposit is read after the settlement: between the settlement's payout and the refund the stream is read again
+		reload := true
+		var after []ir.FPos
+		seenCall := map[[2]any]bool{}
+		w.FlatWalk(root, nil, nil, func(p ir.FPos) bool {
+			if claimFn[p.Ctx.Fn] && p.Ctx.Call != nil && p.Ctx.Up != nil {
+				if k := [2]any{p.Ctx.Up, p.Ctx.Call}; !seenCall[k] {
+					seenCall[k] = true
+					after = append(after, ir.FPos{Ctx: p.Ctx.Up, In: p.Ctx.Call})
+				}
+			}
+			return true
+		})
+		for _, p := range after {
+			p := p
+			if w.FlatReaches(root, &p, &ir.FlatCut{Barrier: func(_ *ir.FCtx, in ssa.Instruction) bool { return isRead(in) }}, isRefundOcc) != nil {
+				reload = false
+			}
+		}
+		r.Require(reload, "A3.cancel-pairing", key+"|reload", pos(c, refund.In), "the stream is re-read after the settlement so that the refund is the post-claim remainder", "the refund uses the deposit loaded before the settlement")
 	}
 }
 
 // reloadedAfter: between every A-instruction and `site` there is a read of the stream section.
 func reloadedAfter(c *Ctx, f *ssa.Function, isA func(ssa.Instruction) bool, site ssa.Instruction) bool {
 	isRead := callReaching(c, f, func(e ir.Effect) bool { return e.Kind == "StoreRead" && e.Section == secStreams })
-	isW := func(e ir.Effect) bool { return (e.Kind == "StoreWrite" || e.Kind == "StoreDelete") && e.Section == secStreams }
+	isW := func(e ir.Effect) bool {
+		return (e.Kind == "StoreWrite" || e.Kind == "StoreDelete") && e.Section == secStreams
+	}
 	isR := func(e ir.Effect) bool { return e.Kind == "StoreRead" && e.Section == secStreams }
 	for _, a := range findInstrs(f, isA) {
 		// a helper that settles and then re-reads the stream (handing the fresh record back) is its own reload
@@ -479,22 +663,30 @@ func C11(c *Ctx) {
 	// "the outstanding flow was settled" = the claim step ran: it is the step that sets LastOutflowTime to the block
 	// time. Orderings are asked on the flat view (the settlement may be reached through a helper that decides
 	// whether there is anything to settle), with the deposit-is-zero edges deleted in every call context.
-	settled := func(in ssa.Instruction) bool {
-		st, ok := in.(*ssa.Store)
-		if !ok {
-			return false
-		}
-		fa, ok := st.Addr.(*ssa.FieldAddr)
-		return ok && fieldAddrName(fa) == "LastOutflowTime" && isBlockTime(w.ExprOf(st.Val))
+	settled := func(cx *ir.FCtx, in ssa.Instruction) bool {
+		return resetsOutflowAt(c, cx, in)
 	}
 	noDepositM := func(pr ir.Pred) bool {
 		q := pr
 		q.Pol = !q.Pol
 		return depositPositive(c)(q)
 	}
+	settledBeforeP := func(f *ssa.Function, target func(ir.FPos) bool, extra map[[2]int]bool) bool {
+		root := w.FlatRoot(f)
+		cut := &ir.FlatCut{Matcher: noDepositM, Depth: 1, Barrier: settled}
+		if extra != nil {
+			cut.Edges = func(ctx *ir.FCtx) map[[2]int]bool {
+				if ctx == root {
+					return extra
+				}
+				return nil
+			}
+		}
+		return w.FlatReaches(root, nil, cut, target) == nil
+	}
 	settledBefore := func(f *ssa.Function, site ssa.Instruction, extra map[[2]int]bool) bool {
 		root := w.FlatRoot(f)
-		cut := &ir.FlatCut{Matcher: noDepositM, Barrier: func(_ *ir.FCtx, in ssa.Instruction) bool { return settled(in) }}
+		cut := &ir.FlatCut{Matcher: noDepositM, Depth: 1, Barrier: settled}
 		if extra != nil {
 			cut.Edges = func(ctx *ir.FCtx) map[[2]int]bool {
 				if ctx == root {
@@ -508,10 +700,34 @@ func C11(c *Ctx) {
 	isClaimIn := func(f *ssa.Function) func(ssa.Instruction) bool {
 		return callReaching(c, f, func(e ir.Effect) bool { return e.Method == "SendCoinsFromModuleToModule" })
 	}
+	// functions that belong to the claim step: reached from the consensus roots only through it (its phases and
+	// store helper); what they write is the claim step's business (claim-pairing checks Deposit and LastOutflowTime there)
+	claimFn := map[*ssa.Function]bool{}
+	for _, g := range claimSteps(c) {
+		claimFn[g] = true
+	}
+	outside := map[*ssa.Function]bool{}
+	var q []*ssa.Function
+	for _, rt := range w.RootSet(consensusKinds...) {
+		if !claimFn[rt] && !outside[rt] {
+			outside[rt] = true
+			q = append(q, rt)
+		}
+	}
+	for len(q) > 0 {
+		f := q[0]
+		q = q[1:]
+		for _, ed := range w.Callees(f) {
+			if !claimFn[ed.To] && !outside[ed.To] {
+				outside[ed.To] = true
+				q = append(q, ed.To)
+			}
+		}
+	}
 	// flow-rate update
 	n := 0
 	for _, f := range w.Funcs {
-		if ir.ModuleOf(f) != "stream" || !c.Rooted(f) || w.IsGenerated(f) || w.IsRoot(f) {
+		if ir.ModuleOf(f) != "stream" || !c.Rooted(f) || w.IsGenerated(f) || w.IsRoot(f) || claimFn[f] || !outside[f] {
 			continue
 		}
 		isSet := callReaching(c, f, func(e ir.Effect) bool { return e.Kind == "StoreWrite" && e.Section == secStreams })
@@ -542,6 +758,10 @@ func C11(c *Ctx) {
 				r.Require(settledBefore(f, s, nil), "A3.settle-before-change", "flow-rate|"+fn(f), pos(c, s), "a new flow rate is stored only after outstanding flow was settled at the old rate (whenever the deposit is positive)", "the store is reachable with a positive deposit and no settlement")
 				// and the stored DepositZeroTime is recomputed from the reloaded deposit
 				zt := fieldOfStruct(st, "DepositZeroTime")
+				if zt != nil {
+					// in canonical form: helpers around the duration calculator expanded, the calculator itself kept
+					zt = w.ExpandKeep(zt, 4, func(g *ssa.Function) bool { return g.Name() == "CalculateDuration" })
+				}
 				r.Require(zt != nil && zt.Any(func(x *ir.Expr) bool { return calleeIs(x, "types.CalculateDuration") }), "A3.settle-before-change", "flow-rate-zero-time|"+fn(f), pos(c, s), "the deposit-zero time is recomputed from the settled remainder and the new rate", fmt.Sprint(zt))
 				if zt != nil {
 					zt.Walk(func(x *ir.Expr) bool {
@@ -557,28 +777,52 @@ func C11(c *Ctx) {
 	}
 	r.Floor("flow-rate stores outside the claim step", n, 1)
 	// top-up of an expired stream: claim before the transfer
-	for _, f := range funcsWith(c, "stream", func(e ir.Effect) bool { return e.Method == "SendCoinsFromAccountToModule" }) {
+	isSendSite := directSites(c, func(e ir.Effect) bool {
+		return e.Method == "SendCoinsFromAccountToModule" && ir.ModuleOf(e.Fn) == "stream"
+	})
+	for _, f := range topUpSteps(c) {
 		var send ir.Effect
-		for _, e := range w.EffectsOf(f) {
-			if e.Method == "SendCoinsFromAccountToModule" {
-				send = e
+		for g := range w.Reachable([]*ssa.Function{f}) {
+			for _, e := range w.EffectsOf(g) {
+				if e.Method == "SendCoinsFromAccountToModule" && ir.ModuleOf(g) == "stream" {
+					send = e
+				}
 			}
 		}
-		notExpired := w.EstablishedEdges(f, func(pr ir.Pred) bool {
-			// edges on which "DepositZeroTime is after now" (not expired) holds: the negation of Before/Equal tests
-			if pr.Pol {
-				return false
+		// edges on which "DepositZeroTime is after now" (not expired) holds: both zt.Before(now) and zt.Equal(now) are
+		// false there. Each half is established on its own edges; an edge carries a half also when it can only be reached
+		// through an edge that does (the else-edge of the second test of `A || B`, or the false edge of `if expired`
+		// with expired := A || B held in a variable).
+		half := func(method string) map[[2]int]bool {
+			es := w.EstablishedEdges(f, func(pr ir.Pred) bool {
+				e := pr.E
+				return !pr.Pol && calleeIs(e, method) && len(e.Args) == 2 && streamFieldX(c, e.Args[0], "DepositZeroTime") && isBlockTime(e.Args[1])
+			}, 0)
+			out := map[[2]int]bool{}
+			for k := range es {
+				out[k] = true
 			}
-			e := pr.E
-			return (calleeIs(e, "time.Time).Before") || calleeIs(e, "time.Time).Equal")) && len(e.Args) == 2 && streamFieldX(c, e.Args[0], "DepositZeroTime") && isBlockTime(e.Args[1])
-		}, 0)
+			for _, b := range f.Blocks {
+				if len(b.Instrs) == 0 || b.Index == 0 {
+					continue
+				}
+				if !ir.Reaches(f, b.Instrs[len(b.Instrs)-1], ir.Cut{Edges: es}) {
+					for si := range b.Succs {
+						out[[2]int{b.Index, si}] = true
+					}
+				}
+			}
+			return out
+		}
 		cut := map[[2]int]bool{}
 		for k := range noDeposit(f) {
 			cut[k] = true
 		}
-		// an edge is "not expired" only if both Before and Equal are false: the else-branch of (Before || Equal)
-		for k := range notExpiredBoth(f, notExpired) {
-			cut[k] = true
+		notBefore, notEqual := half("time.Time).Before"), half("time.Time).Equal")
+		for k := range notBefore {
+			if notEqual[k] {
+				cut[k] = true
+			}
 		}
 		// ... or it is tested positively: DepositZeroTime.After(now) / now.Before(DepositZeroTime) holds
 		for k := range w.EstablishedEdges(f, func(pr ir.Pred) bool {
@@ -591,7 +835,7 @@ func C11(c *Ctx) {
 		}, 0) {
 			cut[k] = true
 		}
-		r.Require(settledBefore(f, send.Site, cut), "A3.settle-before-change", "topup-expired|"+fn(f), pos(c, send.Site), "topping up an expired stream with a positive deposit first settles the remainder to the receiver", "the transfer is reachable for an expired, funded stream without settlement")
+		r.Require(settledBeforeP(f, func(p ir.FPos) bool { return isSendSite(p.In) }, cut), "A3.settle-before-change", "topup-expired|"+fn(f), pos(c, send.Site), "topping up an expired stream with a positive deposit first settles the remainder to the receiver", "the transfer is reachable for an expired, funded stream without settlement")
 	}
 	// cancel: covered structurally in C10 (claim<refund); repeated here as the C11 clause
 	for _, f := range w.Funcs {
@@ -656,17 +900,7 @@ func restartResetsOutflow(c *Ctx, isClaimIn func(*ssa.Function) func(ssa.Instruc
 	// asked on the flat view: the settlement may be reached through a helper that skips it for an empty stream,
 	// so "a call that may claim" is not enough — the reset itself (LastOutflowTime := block time, in the claim
 	// step or directly) must lie on the path
-	reset := func(_ *ir.FCtx, in ssa.Instruction) bool {
-		st, ok := in.(*ssa.Store)
-		if !ok {
-			return false
-		}
-		fa, ok := st.Addr.(*ssa.FieldAddr)
-		if !ok || fieldAddrName(fa) != "LastOutflowTime" {
-			return false
-		}
-		return isBlockTime(w.ExprOf(st.Val))
-	}
+	reset := func(cx *ir.FCtx, in ssa.Instruction) bool { return resetsOutflowAt(c, cx, in) }
 	isWrite := directSites(c, func(e ir.Effect) bool { return e.Kind == "StoreWrite" && e.Section == secStreams })
 	for _, f := range w.Funcs {
 		if ir.ModuleOf(f) != "stream" || !c.Rooted(f) || w.IsGenerated(f) || w.IsRoot(f) || ir.IsFixture(f) {
@@ -688,18 +922,34 @@ func restartResetsOutflow(c *Ctx, isClaimIn func(*ssa.Function) func(ssa.Instruc
 				}
 				n++
 				root := w.FlatRoot(f)
-				site := in
+				// when the base is chosen between the old zero time and the block time (extendFrom := zt; if expired { extendFrom = now }),
+				// the schedule restarts only on the paths that supply the block time: those are judged, from the point of choice
+				sites := []ssa.Instruction{in}
+				if len(call.Call.Args) > 0 {
+					if ph, ok := call.Call.Args[0].(*ssa.Phi); ok {
+						sites = nil
+						for i, ed := range ph.Edges {
+							if isBlockTime(w.ExprOf(ed)) && !streamFieldX(c, w.ExprOf(ed), "DepositZeroTime") {
+								pred := ph.Block().Preds[i]
+								sites = append(sites, pred.Instrs[len(pred.Instrs)-1])
+							}
+						}
+					}
+				}
 				bad := ""
-				if occ := w.FlatReaches(root, nil, &ir.FlatCut{Barrier: reset}, func(p ir.FPos) bool { return p.Ctx == root && p.In == site }); occ != nil {
-					if wr := w.FlatReaches(root, occ, &ir.FlatCut{Barrier: reset}, func(p ir.FPos) bool { return isWrite(p.In) }); wr != nil {
-						bad = "the stream is stored at " + w.InstrPos(wr.In) + " with a deposit-zero time counted from now, on a path with neither a settlement nor LastOutflowTime = block time"
+				for _, site := range sites {
+					site := site
+					if occ := w.FlatReaches(root, nil, &ir.FlatCut{Barrier: reset}, func(p ir.FPos) bool { return p.Ctx == root && p.In == site }); occ != nil {
+						if wr := w.FlatReaches(root, occ, &ir.FlatCut{Barrier: reset}, func(p ir.FPos) bool { return isWrite(p.In) }); wr != nil {
+							bad = "the stream is stored at " + w.InstrPos(wr.In) + " with a deposit-zero time counted from now, on a path with neither a settlement nor LastOutflowTime = block time"
+						}
 					}
 				}
 				r.Require(bad == "", "A3.restart-resets-outflow", fn(f)+"|"+fmt.Sprint(n), pos(c, in), "a schedule restarted from the block time (DepositZeroTime = now + duration) also restarts LastOutflowTime at the block time", bad)
 			}
 		}
 	}
-	r.Floor("deposit-zero times recomputed from the block time", n, 2)
+	r.Floor("deposit-zero times recomputed from the block time", n, 1)
 }
 
 func fieldAddrName(fa *ssa.FieldAddr) string {
@@ -724,59 +974,69 @@ func elapsedSeconds(c *Ctx) {
 		return
 	}
 	n := 0
-	for _, b := range f.Blocks {
-		for _, in := range b.Instrs {
-			call, ok := in.(*ssa.Call)
-			if !ok {
-				continue
-			}
-			e := w.ExprOf(call)
-			if !calleeIs(e, "math.Int).Mul") || len(e.Args) != 2 {
-				continue
-			}
-			// one factor is the flow-rate parameter, the other the seconds
-			var sec *ir.Expr
-			for i := 0; i < 2; i++ {
-				a, o := e.Args[i], e.Args[1-i]
-				if calleeIs(a, "NewInt") && len(a.Args) == 1 && a.Args[0].Op == "param" {
-					sec = o
-				}
-			}
-			if sec == nil {
-				continue
-			}
-			n++
-			if calleeIs(sec, "NewInt") && len(sec.Args) == 1 {
-				sec = sec.Args[0]
-			}
-			// the seconds may be computed by a helper of the same package (wholeSecondsBetween(last, now)): look inside
-			if se := stripConvE(sec); se.Op == "call" && se.Callee != nil && ir.FnPkg(se.Callee) == ir.FnPkg(f) {
-				if x := w.Inline(se); x != nil {
-					sec = x
-				}
-			}
-			ok2 := true
-			seen := false
-			for _, a := range sec.Alts() {
-				a = stripConvE(a)
-				if a.Op == "const" && a.Name == "0" {
+	// the product may stand in the claim-amount function or in a helper / method of the same package it delegates to
+	var scope []*ssa.Function
+	for g := range w.Reachable([]*ssa.Function{f}) {
+		if ir.FnPkg(g) == ir.FnPkg(f) && !w.IsGenerated(g) {
+			scope = append(scope, g)
+		}
+	}
+	sortFuncs(scope)
+	for _, g := range scope {
+		for _, b := range g.Blocks {
+			for _, in := range b.Instrs {
+				call, ok := in.(*ssa.Call)
+				if !ok {
 					continue
 				}
-				q := a
-				isQuot := q.Op == "bin" && q.Name == "/" && (q.Args[1].Op == "const" && (q.Args[1].Name == "time.Second" || q.Args[1].Name == "1000000000"))
-				if isQuot {
-					d := stripConvE(q.Args[0])
-					if calleeIs(d, "time.Duration).Nanoseconds") && len(d.Args) == 1 {
-						d = d.Args[0]
-					}
-					if calleeIs(d, "time.Time).Sub") && len(d.Args) == 2 && d.Args[0].Op == "param" && d.Args[1].Op == "param" {
-						seen = true
-						continue
+				e := w.ExprOf(call)
+				if !calleeIs(e, "math.Int).Mul") || len(e.Args) != 2 {
+					continue
+				}
+				// one factor is the flow-rate parameter, the other the seconds
+				var sec *ir.Expr
+				for i := 0; i < 2; i++ {
+					a, o := e.Args[i], e.Args[1-i]
+					if calleeIs(a, "NewInt") && len(a.Args) == 1 && isParamPath(a.Args[0]) {
+						sec = o
 					}
 				}
-				ok2 = false
+				if sec == nil {
+					continue
+				}
+				n++
+				if calleeIs(sec, "NewInt") && len(sec.Args) == 1 {
+					sec = sec.Args[0]
+				}
+				// the seconds may be computed by a helper of the same package (wholeSecondsBetween(last, now)): look inside
+				if se := stripConvE(sec); se.Op == "call" && se.Callee != nil && ir.FnPkg(se.Callee) == ir.FnPkg(f) {
+					if x := w.Inline(se); x != nil {
+						sec = x
+					}
+				}
+				ok2 := true
+				seen := false
+				for _, a := range sec.Alts() {
+					a = stripConvE(a)
+					if a.Op == "const" && a.Name == "0" {
+						continue
+					}
+					q := a
+					isQuot := q.Op == "bin" && q.Name == "/" && (q.Args[1].Op == "const" && (q.Args[1].Name == "time.Second" || q.Args[1].Name == "1000000000"))
+					if isQuot {
+						d := stripConvE(q.Args[0])
+						if calleeIs(d, "time.Duration).Nanoseconds") && len(d.Args) == 1 {
+							d = d.Args[0]
+						}
+						if calleeIs(d, "time.Time).Sub") && len(d.Args) == 2 && isParamPath(d.Args[0]) && isParamPath(d.Args[1]) {
+							seen = true
+							continue
+						}
+					}
+					ok2 = false
+				}
+				r.Require(ok2 && seen, "A7.elapsed-seconds", fn(f), pos(c, in), "the seconds multiplied by the flow rate are floor((now - lastOutflow) / 1s), computed from one time difference", "seconds = "+sec.String())
 			}
-			r.Require(ok2 && seen, "A7.elapsed-seconds", fn(f), pos(c, in), "the seconds multiplied by the flow rate are floor((now - lastOutflow) / 1s), computed from one time difference", "seconds = "+sec.String())
 		}
 	}
 	r.Floor("seconds x flow-rate products in the claim-amount function", n, 1)
@@ -850,6 +1110,7 @@ func streamScope(c *Ctx) []*ssa.Function {
 func streamHazards(c *Ctx) {
 	w, r := c.W, c.R
 	nf, nm := 0, 0
+	durOrd := map[string]int{}
 	for _, f := range streamScope(c) {
 		for _, e := range w.EffectsOf(f) {
 			if e.Kind == "Float" {
@@ -882,16 +1143,40 @@ func streamHazards(c *Ctx) {
 					}
 					ord[rule]++
 					key := fmt.Sprintf("%s|mul%d", fn(f), ord[rule])
-					// guarded when a dominating comparison bounds an operand by a quotient of a limit (not present today)
-					guarded := w.Guarded(f, in, func(p ir.Pred) bool {
-						return cmpIs(p, "<=", func(a *ir.Expr) bool { return a.String() == w.ExprOf(x.X).String() || a.String() == w.ExprOf(x.Y).String() }, func(b2 *ir.Expr) bool {
-							return b2.Op == "bin" && b2.Name == "/"
-						})
-					}, 0)
 					what := "int64 product of schedule quantities is range-checked before use (it would wrap silently)"
 					if isDur {
 						what = "seconds→time.Duration product is range-checked (durations above ~292 years wrap)"
 					}
+					bound := func(xs, ys string) ir.Matcher {
+						// guarded when a dominating comparison bounds an operand by a quotient of a limit (not present today)
+						return func(p ir.Pred) bool {
+							return cmpIs(p, "<=", func(a *ir.Expr) bool { return a.String() == xs || a.String() == ys }, func(b2 *ir.Expr) bool { return b2.Op == "bin" && b2.Name == "/" })
+						}
+					}
+					if isDur {
+						// a duration product is identified by the operation it belongs to and by what is multiplied (in the handler's
+						// terms), not by the function it is written in: moving it into a helper leaves the same obligations
+						tup := &ir.Expr{Op: "tuple", Args: []*ir.Expr{w.ExprOf(x.X), w.ExprOf(x.Y)}}
+						lifted := 0
+						for _, h := range w.Roots["MSG:stream"] {
+							for _, up := range w.OriginsUpTo(f, tup, h, 8) {
+								if up.E.Op != "tuple" || len(up.E.Args) != 2 {
+									continue
+								}
+								lifted++
+								sig := sourceSignature(c, w.ExpandKeep(up.E, 6, ir.TypesVocabulary))
+								k2 := h.Name() + "|" + sig
+								durOrd[k2]++
+								k2 = fmt.Sprintf("%s|#%d", k2, durOrd[k2])
+								g := chainGuarded(c, h, up.Chain, in, bound(up.E.Args[0].String(), up.E.Args[1].String()), 0)
+								r.Require(g, rule, k2, pos(c, in), what, "unguarded "+w.ExprOf(x).String()+" in "+fn(f))
+							}
+						}
+						if lifted > 0 {
+							continue
+						}
+					}
+					guarded := w.Guarded(f, in, bound(w.ExprOf(x.X).String(), w.ExprOf(x.Y).String()), 0)
 					r.Require(guarded, rule, key, pos(c, in), what, "unguarded "+w.ExprOf(x).String())
 				case *ssa.Convert:
 					from, ok1 := x.X.Type().Underlying().(*types.Basic)
@@ -923,45 +1208,45 @@ func streamHazards(c *Ctx) {
 
 // panicking SDK APIs (A10): method suffix -> why it can panic
 var panicAPIs = map[string]string{
-	"LegacyDec).TruncateInt64":   "panics when the value does not fit int64",
-	"LegacyDec).RoundInt64":      "panics when the value does not fit int64",
-	"math.Int).Int64":            "panics when the value does not fit int64",
-	"math.Int).Uint64":           "panics when the value does not fit uint64",
-	"types.Coin).Sub":            "panics on denom mismatch or negative result",
-	"types.Coin).Add":            "panics on denom mismatch",
-	"types.NewCoin":              "panics on negative amount or invalid denom",
-	"types.NewInt64Coin":         "panics on negative amount or invalid denom",
-	"types.NewDecCoinFromCoin":   "panics on an invalid (negative) coin",
-	"LegacyDec).QuoTruncateMut":  "panics on division by zero",
-	"LegacyDec).Quo":             "panics on division by zero",
-	"LegacyDec).QuoTruncate":     "panics on division by zero",
-	"types.NewCoins":             "panics on invalid or duplicate coins",
-	"types.MustNewDecFromStr":    "panics on malformed input",
-	"address.MustLengthPrefix":   "panics above 255 bytes",
+	"LegacyDec).TruncateInt64":       "panics when the value does not fit int64",
+	"LegacyDec).RoundInt64":          "panics when the value does not fit int64",
+	"math.Int).Int64":                "panics when the value does not fit int64",
+	"math.Int).Uint64":               "panics when the value does not fit uint64",
+	"types.Coin).Sub":                "panics on denom mismatch or negative result",
+	"types.Coin).Add":                "panics on denom mismatch",
+	"types.NewCoin":                  "panics on negative amount or invalid denom",
+	"types.NewInt64Coin":             "panics on negative amount or invalid denom",
+	"types.NewDecCoinFromCoin":       "panics on an invalid (negative) coin",
+	"LegacyDec).QuoTruncateMut":      "panics on division by zero",
+	"LegacyDec).Quo":                 "panics on division by zero",
+	"LegacyDec).QuoTruncate":         "panics on division by zero",
+	"types.NewCoins":                 "panics on invalid or duplicate coins",
+	"types.MustNewDecFromStr":        "panics on malformed input",
+	"address.MustLengthPrefix":       "panics above 255 bytes",
 	"types.ParseLengthPrefixedBytes": "panics on short keys",
 }
 
 // reviewed table for the stream scope: function|api|ordinal -> reason (the specification of why
 // the site cannot panic for accepted values). Sites not listed are violations.
 var streamPanicReviewed = map[string]string{
-	"x/stream/types.CalculateDuration|LegacyDec).QuoTruncateMut|1":      "guard:flowRate>0",
-	"x/stream/types.CalculateDuration|types.NewDecCoinFromCoin|1":       "deposit is a valid non-negative coin (validated at creation / top-up)",
-	"x/stream/types.CalculateAmountToClaim|types.NewCoin|1":             "zero amount; denom is the stored deposit's",
-	"x/stream/types.CalculateAmountToClaim|types.NewCoin|2":             "guard:seconds>=0",
-	"x/stream/types.CalculateAmountToClaim|types.NewCoin|3":             "zero amount; denom is the stored deposit's",
-	"x/stream/types.GetStreamKey|address.MustLengthPrefix|1":            "addresses come from AccAddressFromBech32, which rejects more than 255 bytes",
-	"x/stream/types.GetStreamsByReceiverKey|address.MustLengthPrefix|1": "addresses come from AccAddressFromBech32, which rejects more than 255 bytes",
-	"x/stream/types.CalculateAmountToClaim|types.Coin).Sub|1":           "guard:deposit>claim",
-	"x/stream/types.CalculateValidatorFee|types.NewDecCoinFromCoin|1":   "claim total is non-negative (checked by the caller before the split)",
-	"x/stream/types.CalculateValidatorFee|types.NewCoin|1":              "fee = trunc(amount*rate) is non-negative for rate in [0,1] (C16 validates the rate)",
-	"x/stream/types.CalculateValidatorFee|types.NewCoin|2":              "zero amount",
-	"x/stream/types.CalculateValidatorFee|types.Coin).Sub|1":            "fee <= amount because the stored rate is validated within [0,1] (C16); same denom by construction",
-	"(x/stream/keeper.Keeper).ClaimFromStream|types.NewCoins|1":         "guard:amount>0",
-	"(x/stream/keeper.Keeper).ClaimFromStream|types.NewCoins|2":         "guard:amount>0",
-	"(x/stream/keeper.Keeper).AddDeposit|types.NewCoins|1":              "top-up deposit validated positive by ValidateBasic and the handler",
-	"(x/stream/keeper.Keeper).AddDeposit|types.Coin).Add|1":             "guard:same-denom",
+	"x/stream/types.CalculateDuration|LegacyDec).QuoTruncateMut|1":           "guard:flowRate>0",
+	"x/stream/types.CalculateDuration|types.NewDecCoinFromCoin|1":            "deposit is a valid non-negative coin (validated at creation / top-up)",
+	"x/stream/types.CalculateAmountToClaim|types.NewCoin|1":                  "zero amount; denom is the stored deposit's",
+	"x/stream/types.CalculateAmountToClaim|types.NewCoin|2":                  "guard:seconds>=0",
+	"x/stream/types.CalculateAmountToClaim|types.NewCoin|3":                  "zero amount; denom is the stored deposit's",
+	"x/stream/types.GetStreamKey|address.MustLengthPrefix|1":                 "addresses come from AccAddressFromBech32, which rejects more than 255 bytes",
+	"x/stream/types.GetStreamsByReceiverKey|address.MustLengthPrefix|1":      "addresses come from AccAddressFromBech32, which rejects more than 255 bytes",
+	"x/stream/types.CalculateAmountToClaim|types.Coin).Sub|1":                "guard:deposit>claim",
+	"x/stream/types.CalculateValidatorFee|types.NewDecCoinFromCoin|1":        "claim total is non-negative (checked by the caller before the split)",
+	"x/stream/types.CalculateValidatorFee|types.NewCoin|1":                   "fee = trunc(amount*rate) is non-negative for rate in [0,1] (C16 validates the rate)",
+	"x/stream/types.CalculateValidatorFee|types.NewCoin|2":                   "zero amount",
+	"x/stream/types.CalculateValidatorFee|types.Coin).Sub|1":                 "fee <= amount because the stored rate is validated within [0,1] (C16); same denom by construction",
+	"(x/stream/keeper.Keeper).ClaimFromStream|types.NewCoins|1":              "guard:amount>0",
+	"(x/stream/keeper.Keeper).ClaimFromStream|types.NewCoins|2":              "guard:amount>0",
+	"(x/stream/keeper.Keeper).AddDeposit|types.NewCoins|1":                   "top-up deposit validated positive by ValidateBasic and the handler",
+	"(x/stream/keeper.Keeper).AddDeposit|types.Coin).Add|1":                  "guard:same-denom",
 	"(x/stream/keeper.Keeper).CancelStreamBySenderReceiver|types.NewCoins|1": "guard:amount>0",
-	"(x/stream/keeper.Keeper).CreateNewStream|types.NewCoin|1":          "zero amount; denom of the validated deposit",
+	"(x/stream/keeper.Keeper).CreateNewStream|types.NewCoin|1":               "zero amount; denom of the validated deposit",
 }
 
 func C12(c *Ctx) {
@@ -1091,7 +1376,9 @@ func panicGuard(c *Ctx, f *ssa.Function, call *ssa.Call, e *ir.Expr, kind string
 			return false
 		}
 		amountOf := func(coin *ir.Expr) func(*ir.Expr) bool {
-			return func(x *ir.Expr) bool { return x.Op == "field" && x.Name == "Amount" && x.Args[0].String() == coin.String() }
+			return func(x *ir.Expr) bool {
+				return x.Op == "field" && x.Name == "Amount" && x.Args[0].String() == coin.String()
+			}
 		}
 		return w.Guarded(f, call, func(p ir.Pred) bool {
 			// a > b or a >= b, written with any of the sdk.Int comparison methods, in either polarity / operand order
@@ -1099,7 +1386,9 @@ func panicGuard(c *Ctx, f *ssa.Function, call *ssa.Call, e *ir.Expr, kind string
 		}, 0)
 	case "same-denom":
 		return w.Guarded(f, call, func(p ir.Pred) bool {
-			return cmpIs(p, "==", func(a *ir.Expr) bool { return a.Op == "field" && a.Name == "Denom" && len(e.Args) == 2 && a.Args[0].String() == e.Args[1].String() }, func(b *ir.Expr) bool {
+			return cmpIs(p, "==", func(a *ir.Expr) bool {
+				return a.Op == "field" && a.Name == "Denom" && len(e.Args) == 2 && a.Args[0].String() == e.Args[1].String()
+			}, func(b *ir.Expr) bool {
 				return b.Op == "field" && b.Name == "Denom"
 			})
 		}, 0)
@@ -1173,7 +1462,9 @@ func panicGuard(c *Ctx, f *ssa.Function, call *ssa.Call, e *ir.Expr, kind string
 			amt = e.Args[0].Args[0]
 		}
 		return amt != nil && w.Guarded(f, call, func(p ir.Pred) bool {
-			isAmt := func(x *ir.Expr) bool { return x.Op == "field" && x.Name == "Amount" && x.Args[0].String() == amt.String() }
+			isAmt := func(x *ir.Expr) bool {
+				return x.Op == "field" && x.Name == "Amount" && x.Args[0].String() == amt.String()
+			}
 			return intCmpIs(p, ">", isAmt, isZeroInt) ||
 				p.Pol && calleeIs(p.E, "math.Int).IsPositive") && len(p.E.Args) == 1 && isAmt(p.E.Args[0]) ||
 				p.Pol && calleeIs(p.E, "types.Coin).IsPositive") && len(p.E.Args) == 1 && p.E.Args[0].String() == amt.String()
@@ -1232,4 +1523,119 @@ func streamFields(c *Ctx) {
 		}
 		r.Floor("stream writes changing the flow rate via "+method, n, 1)
 	}
+}
+
+// amountOfCoin: x (canonical) is <coin>.Amount for the coin d (canonical), zero-value alternatives of either
+// side (the "not found" defaults of getters) ignored.
+func amountOfCoin(x, d *ir.Expr) bool {
+	if x == nil || d == nil {
+		return false
+	}
+	ds := map[string]bool{}
+	for _, a := range nonZeroAlts(d) {
+		ds[a.String()] = true
+	}
+	n := 0
+	for _, a := range nonZeroAlts(x) {
+		n++
+		if !(a.Op == "field" && a.Name == "Amount" && len(a.Args) == 1 && ds[a.Args[0].String()]) {
+			return false
+		}
+	}
+	return n > 0
+}
+
+// sameCoin: x and d denote the same coin, zero-value alternatives ignored.
+func sameCoin(x, d *ir.Expr) bool {
+	if x == nil || d == nil {
+		return false
+	}
+	ds := map[string]bool{}
+	for _, a := range nonZeroAlts(d) {
+		ds[a.String()] = true
+	}
+	n := 0
+	for _, a := range nonZeroAlts(x) {
+		n++
+		if !ds[a.String()] {
+			return false
+		}
+	}
+	return n > 0
+}
+
+// resetsOutflowAt: the instruction occurrence assigns the block time to a LastOutflowTime field — judged in the
+// call context it occurs in (the claim step may hand the time to a store helper as a parameter or struct field).
+func resetsOutflowAt(c *Ctx, cx *ir.FCtx, in ssa.Instruction) bool {
+	st, ok := in.(*ssa.Store)
+	if !ok {
+		return false
+	}
+	fa, ok := st.Addr.(*ssa.FieldAddr)
+	if !ok || fieldAddrName(fa) != "LastOutflowTime" {
+		return false
+	}
+	v := c.W.ExprOf(st.Val)
+	if isBlockTime(v) {
+		return true
+	}
+	if cx != nil {
+		v = cx.Apply(v)
+	}
+	return isBlockTime(c.W.ExpandKeep(v, 4, ir.TypesVocabulary))
+}
+
+// topUpSteps: the top-up step, found by what it does — the smallest non-handler functions of the stream module that
+// (themselves or through helpers) both debit the sender (account -> module transfer) and store a stream record.
+func topUpSteps(c *Ctx) []*ssa.Function {
+	w := c.W
+	does := map[*ssa.Function]bool{}
+	var cands []*ssa.Function
+	for _, f := range moduleFuncs(c, "stream") {
+		if f.Parent() != nil || !c.Rooted(f) || w.IsRoot(f) {
+			continue
+		}
+		if reachesEffect(c, f, func(e ir.Effect) bool { return e.Method == "SendCoinsFromAccountToModule" }) &&
+			reachesEffect(c, f, func(e ir.Effect) bool { return e.Kind == "StoreWrite" && e.Section == secStreams }) {
+			cands = append(cands, f)
+			does[f] = true
+		}
+	}
+	var out []*ssa.Function
+	for _, f := range cands {
+		minimal := true
+		for g := range w.Reachable([]*ssa.Function{f}) {
+			if g != f && does[g] {
+				minimal = false
+			}
+		}
+		if minimal {
+			out = append(out, f)
+		}
+	}
+	return out
+}
+
+// sourceSignature names where the values of an expression come from: the vocabulary functions applied, message
+// fields, stored fields (by section) and constants of package time — sorted, so that it does not depend on how the
+// expression was spelled.
+func sourceSignature(c *Ctx, e *ir.Expr) string {
+	set := map[string]bool{}
+	e.Walk(func(x *ir.Expr) bool {
+		switch {
+		case x.Op == "call" && x.Callee != nil && ir.TypesVocabulary(x.Callee):
+			set[x.Callee.Name()] = true
+		case x.Op == "field" && len(x.Args) == 1 && x.Args[0].Op == "param" && strings.HasPrefix(x.Args[0].Name, "msg"):
+			set["msg."+x.Name] = true
+			return false
+		case x.Op == "field" && len(x.Args) == 1 && x.Args[0].Op == "state":
+			sec := x.Args[0].Name
+			set["stored:"+sec[strings.LastIndex(sec, ".")+1:]+"."+x.Name] = true
+			return false
+		case x.Op == "param" && !strings.HasPrefix(x.Name, "msg") && x.Name != "ctx" && x.Name != "goCtx" && x.Name != "k":
+			set["param:"+x.Name] = true
+		}
+		return true
+	})
+	return strings.Join(sortedKeys(set), ";")
 }
